@@ -329,17 +329,33 @@ def solo_profile(g, ops_spec, initial):
         if 'reset' in g:
             g['reset']()
         win = set()
-        def probe(t, step, code, line, _win=win):
+        locs = {}
+        def probe(t, step, code, line, _win=win, _locs=locs):
+            _locs.setdefault((code.co_filename, line), []).append(step)
             if transient(g, initial):
                 _win.add(step)
         SCHED.probe = probe
         res, steps, hung = SCHED.run([op], {})
         SCHED.probe = None
+        LOCATION_STEPS.setdefault(id(g), []).append(location_representatives(locs))
         answers.append(render(res[0]))
         counts.append(steps[0])
         # a window step and its two neighbours are where a switch exposes the transient state
         windows.append(sorted(set(s + d for s in win for d in (-1, 0, 1) if 1 <= s + d <= steps[0])))
     return answers, counts, windows
+
+
+LOCATION_STEPS = {}
+
+
+def location_representatives(locs):
+    """For every distinct statement (file, line) an operation executes in sigtools: the steps of
+    its first two and its last execution -- a preemption there, whatever the stride misses."""
+    out = set()
+    for steps in locs.values():
+        out.update(steps[:2])
+        out.add(steps[-1])
+    return sorted(out)
 
 
 def solo_profile_fresh(name, ops_spec):
@@ -349,10 +365,16 @@ def solo_profile_fresh(name, ops_spec):
     for k, (how, expr) in enumerate(ops_spec):
         g, _ = build(name)
         op = make_op(g, how, expr)
+        locs = {}
+        def probe(t, step, code, line, _locs=locs):
+            _locs.setdefault((code.co_filename, line), []).append(step)
+        SCHED.probe = probe
         res, steps, hung = SCHED.run([op], {})
+        SCHED.probe = None
         answers.append(render(res[0]))
         counts.append(steps[0])
-        windows.append([])
+        # no transient-state windows are known for a first access: every distinct code location is one
+        windows.append(location_representatives(locs))
     return answers, counts, windows
 
 
@@ -382,17 +404,28 @@ def explore(ctx, name, tier):
         return
     rnd = ctx.rng('sched-' + name)
     schedules = []
-    # ---- one preemption: (t1, k) -> t2
+    # ---- one preemption: (t1, k) -> t2.  Quick tier, in order of priority (the time slice of a scenario may
+    # end before the list does): the steps where the shared state is transient, then one step per distinct
+    # statement the operation executes (first two and last execution), then a stride over all steps.
+    first, second, third = [], [], []
     for t1, t2 in itertools.permutations(range(n), 2):
-        ks = range(1, counts[t1] + 1)
-        if tier == 'quick':
-            stride = max(1, counts[t1] // 100)
-            wins = windows[t1]
-            if len(wins) > 150:
-                wins = wins[::max(1, len(wins) // 150)]
-            ks = sorted(set(list(range(1, counts[t1] + 1, stride)) + list(wins)))
-        for k in ks:
-            schedules.append({(t1, k): t2})
+        if tier != 'quick':
+            first.extend({(t1, k): t2} for k in range(1, counts[t1] + 1))
+            continue
+        stride = max(1, counts[t1] // 100)
+        wins = list(windows[t1])
+        if len(wins) > 150 and not fresh:
+            wins = wins[::max(1, len(wins) // 150)]
+        reps = LOCATION_STEPS.get(id(g), [])
+        reps = list(reps[t1]) if len(reps) > t1 else []
+        seen = set()
+        for bucket, ks in ((first, wins), (second, reps), (third, range(1, counts[t1] + 1, stride))):
+            for k in ks:
+                if k not in seen:
+                    seen.add(k)
+                    bucket.append({(t1, k): t2})
+    rnd.shuffle(second)
+    schedules = first + second + third
     one = len(schedules)
     # ---- two preemptions: (t1, k1) -> t2, (t2, k2) -> t1
     for t1, t2 in itertools.permutations(range(n), 2):
@@ -423,10 +456,15 @@ def explore(ctx, name, tier):
             steps_per_operation=counts, window_steps=[len(x) for x in windows],
             one_preemption_schedules=one, schedules_total=len(schedules), sequential_answers=answers)
     pairs_seen = ctx.extra.setdefault('_pairs', set())
+    slice_end = time.time() + ctx.extra.get('_slice', 1e9)
     for i, plan in enumerate(schedules):
         if not ctx.mine(i):
             continue
         if ctx.out_of_time('schedules of ' + name):
+            break
+        if time.time() > slice_end:
+            if ('time slice of ' + name) not in ctx.shortened:
+                ctx.shortened.append('time slice of ' + name)
             break
         if fresh:
             g, _ = build(name)
@@ -641,7 +679,10 @@ def run(ctx):
     import gc
     names = sorted(SCENARIOS)
     try:
-        for name in names:
+        for j, name in enumerate(names):
+            # every scenario gets its share of what is left of the budget
+            if ctx.deadline is not None:
+                ctx.extra['_slice'] = max(1.0, (ctx.deadline - time.time() - 4) / (len(names) - j))
             try:
                 explore(ctx, name, ctx.tier)
             finally:
@@ -649,6 +690,7 @@ def run(ctx):
                 gc.collect()
     finally:
         SCHED.uninstall()
+    ctx.extra.pop('_slice', None)
     pairs = ctx.extra.pop('_pairs', set())
     ctx.extra['distinct_preemption_locations'] = len(pairs)
     if ctx.shard == 0:
